@@ -1,6 +1,6 @@
 (** C05 — noise-free data from admissible force constants are recovered exactly (index/layout part). *)
 From Coq Require Import ZArith List QArith Reals String.
-From SymfcV Require Import Reshape SolverModel IPS DesignPre Design.
+From SymfcV Require Import Reshape SolverModel IPS DesignPre Design DesignIdx.
 From SymfcG Require Import ReshapeGen SolverStruct DesignGen.
 Import ListNotations.
 Open Scope Z_scope.
@@ -83,6 +83,16 @@ Theorem c05_design_row_O4 N nx (u : Z -> R) aidx begin_i Mc (nrows : nat) i a x 
            else 0%R) (zrange nrows).
 Proof. intros HN Hc. exact (taylor_row_O4 N nx u aidx begin_i Mc HN Hc nrows i a x). Qed.
 Print Assumptions c05_design_row_O4.
+
+(** ... and the compact row it reads is the one of the canonical translate: with an index table that holds the class code of
+    every atom tuple (what AtomIdx.atomic_table_is_cls_code / C08 prove of `atomic_decompr_idx`), gathered row
+    ((i' N + j) N + k) 27 + abc is compact row  code(begin_i + i', j, k) * 27 + abc. *)
+Theorem c05_gathered_row_is_canonical_translate_O3 N (code3 : Z -> Z -> Z -> Z) (aidx : Z -> Z) begin_i i' j k abc :
+  0 < N -> (forall i j k, 0 <= i -> 0 <= j < N -> 0 <= k < N -> aidx ((i * N + j) * N + k) = code3 i j k) ->
+  0 <= begin_i -> 0 <= i' -> 0 <= j < N -> 0 <= k < N -> 0 <= abc < 27 ->
+  gather_row 27 (N * N) aidx begin_i (((i' * N + j) * N + k) * 27 + abc) = code3 (begin_i + i') j k * 27 + abc.
+Proof. intros HN H. exact (gather_row_O3 N code3 aidx H begin_i i' j k abc). Qed.
+Print Assumptions c05_gathered_row_is_canonical_translate_O3.
 
 (** the (3,4) and (2,3,4) solvers build the third-order products from the second-order ones: same numbers *)
 Theorem c05_kron_variants_agree N3 (u : Z -> R) r : 0 < N3 -> disps_3rd_from_2nd N3 (disps_2nd N3 u) u r = disps_3rd N3 u r.
